@@ -34,9 +34,10 @@ try:
                        VERIF_REPLAY_DIR=os.path.join(scratch, "rp_" + r + "_" + c), VERIF_SHRINK_S="20")
             t = time.time()
             q = subprocess.run([f"{V}/check", c, "--tier", "quick"], env=env, capture_output=True, text=True, timeout=1200)
+            rc_eff = q.returncode if not (q.returncode == 1 and "VIOLATION property=" not in q.stdout) else 2
             mo = re.search(r"oracle=(\S+) detail=(.{0,400})", q.stdout)
             gaps = re.search(r"reach: counters still at zero in this batch: (.*)", q.stdout)
-            res[r][c] = {"rc": q.returncode, "wall": round(time.time() - t, 1), "oracle": mo.group(1) if mo else None,
+            res[r][c] = {"rc": rc_eff, "wall": round(time.time() - t, 1), "oracle": mo.group(1) if mo else None,
                          "detail": mo.group(2) if mo else None, "reach_gaps": gaps.group(1) if gaps else None}
             print(r, c, {k: v for k, v in res[r][c].items() if v}, flush=True)
             json.dump(res, open(out_path, "w"), indent=1, sort_keys=True)
